@@ -385,7 +385,7 @@ func genSelect(r *rand.Rand) dockerIn {
 			}
 			m.Re, _ = json.Marshal(&ReAST{T: "eps"})
 		} else {
-			re := genRe(r, 3, "abwex.y 1")
+			re := genReA(r, 3, "abwex.y 1")
 			m.Val = B(re.Text())
 			m.Re, _ = json.Marshal(re)
 		}
@@ -494,6 +494,22 @@ func genDeterminism(r *rand.Rand) dockerIn {
 			sec++
 		}
 		in.Ctrs = append(in.Ctrs, ctr)
+	}
+	if r.Intn(3) == 0 {
+		// every container logs at the same instants and the limit cuts a tie group: which records come back depends on
+		// how ties are broken (by container order, never by arrival)
+		total := 0
+		for c := range in.Ctrs {
+			for j := range in.Ctrs[c].Frames {
+				in.Ctrs[c].Frames[j].TS = []int{1700000001 + j, 0}
+			}
+			total += len(in.Ctrs[c].Frames)
+		}
+		in.Shape = "log"
+		in.Limit = 1 + r.Intn(total)
+		if r.Intn(2) == 0 {
+			in.Limit = 1 + r.Intn(nc-1)
+		}
 	}
 	perms := allPerms(nc)
 	if len(perms) > 24 {
